@@ -275,7 +275,7 @@ def r2(ctx, R):
             R.bad(ef, r_, "_eval_formula does not return the computed value")
 
 
-@rule("C01.R3", "C01", "FLOW", "every spelling of a call is normalised to one key", min_instances=14, also=("C07",))
+@rule("C01.R3", "C01", "FLOW", "every spelling of a call is normalised to one key", min_instances=14, also=("C07", "C06",))
 def r3(ctx, R):
     """get_node builds the key with _bind_args; _bind_args / node_get_args follow
     bind -> apply_defaults -> arguments; callers of eval_node pass get_node(...) or
